@@ -1386,6 +1386,11 @@ pub fn run(tier: &str, parity_odd: bool, shard: usize, nshards: usize, prop: &st
                                 if !reader && matches!(op, Op::Read(_) | Op::Consume(_)) {
                                     continue;
                                 }
+                                // the rarer provided io::Read methods and the terminal structure checks after an
+                                // operation only in the thorough tier (from the initial state always)
+                                if tier != "thorough" && !seq.is_empty() && matches!(op, Op::ReadMore(3) | Op::ReadMore(4) | Op::ReadMore(5) | Op::PokeInner) {
+                                    continue;
+                                }
                                 let mut s2 = seq.clone();
                                 s2.push(op);
                                 stack.push(s2);
